@@ -13,8 +13,8 @@ PROP = {
                          "clauses": {"determinant-vs-reference": 20000, "determinant-multiplicative": 20000, "inverse-vs-reference": 35000, "left-residual-XM-minus-I": 35000,
                                      "inverse-of-singular-terminates-with-diagnostic": 250, "inverse-of-non-square-terminates-with-diagnostic": 50,
                                      "determinant-of-non-square-terminates-with-diagnostic": 50, "triangular-determinant-is-product-of-diagonal": 3000}},
-               "thorough": {"cases": 6000000, "distinct_nontrivial": 1500000, "ticks": {"Inverse.row_exchange": 2000000},
-                            "clauses": {"determinant-vs-reference": 2000000, "inverse-vs-reference": 3500000, "inverse-of-singular-terminates-with-diagnostic": 5000}}},
+               "thorough": {"cases": 2000000, "distinct_nontrivial": 500000, "ticks": {"Inverse.row_exchange": 600000},
+                            "clauses": {"determinant-vs-reference": 700000, "inverse-vs-reference": 1200000, "inverse-of-singular-terminates-with-diagnostic": 5000}}},
     "technique": "runtime monitoring: reference-model oracle (pivoted Gauss-Jordan and signed subset expansion in long double, permanent of |M| as rounding scale), algebraic identity "
                  "checkers, forked worker for 'valid requests return', one isolated child per rejected request with process-outcome oracle; gcc ASan+UBSan build in parallel",
     "level_text": "Tens of thousands (thorough: millions) of generated square matrices of size 1..7 were passed to Determinant/Invertible/Inverse of the real library; every determinant "
